@@ -42,12 +42,16 @@ THOROUGH = [("g2r", SCALES3), ("s2r", SCALES3), ("g2c", SCALES3), ("s2c", SCALES
             ("s4r", SCALES3), ("s4rc", [1.0]), ("n4r7", SCALES3), ("n4c", SCALES3), ("s4c", [1.0]),
             ("h4c", [1.0]), ("deg4", SCALES3)]
 # routines that must have been exercised (non-vacuity guard), instantiations of the models first
+FRESH_GROUPS = ["fs_svd_rc/r/2x2", "fs_svd/c/3x3", "fs_diagonalize_symmetric/r/4x4", "fs_diagonalize_hermitian/r/2x2"]
 REQUIRED = ["fs_svd_rc/r/2x2", "fs_svd/c/3x3", "fs_diagonalize_symmetric/r/4x4", "fs_diagonalize_hermitian/r/2x2",
             "fs_diagonalize_hermitian/r/3x3", "fs_diagonalize_hermitian/c/2x2", "fs_diagonalize_hermitian/c/3x3",
             "svd/r/2x2", "svd/c/3x3", "reorder_svd/r/2x2", "reorder_svd/c/3x3", "diagonalize_hermitian/r/2x2",
             "diagonalize_hermitian/r/4x4", "diagonalize_symmetric_r/r/4x4", "reorder_diagonalize_symmetric/r/4x4",
             "fs_diagonalize_symmetric/c/4x4", "eigen_utils/r/2x2"]
 NSHARD = 16
+# sets on which the full and the values-only result of the model instantiations are also compared bitwise with the
+# same call made as the first library call of a pristine process (one fork per comparison)
+FRESH_SETS = {"g2r", "s2r", "degsvd2", "deg2", "y3c", "g3c3", "degsvd3", "s4r", "n4r5"}
 
 
 def _exe():
@@ -56,7 +60,7 @@ def _exe():
 
 def _run_task(args):
     exe, name, scale, sh, nsh = args
-    p = subprocess.run([exe], input="run %s %s %d %d\n" % (name, float(scale).hex(), sh, nsh),
+    p = subprocess.run([exe], input="run %s %s %d %d %s\n" % (name, float(scale).hex(), sh, nsh, "fresh" if name in FRESH_SETS else "nofresh"),
                        stdout=subprocess.PIPE, stderr=subprocess.PIPE, text=True, timeout=3000)
     if p.returncode != 0:
         raise InfraError("la harness exit %d on %s: %s" % (p.returncode, name, (p.stdout[-300:] + p.stderr[-300:])))
@@ -72,7 +76,8 @@ def _parse(out):
         if tk[0] == "GRP":
             d = dict(t.split("=", 1) for t in tk[3:])
             cls = {} if d["cls"] == "-" else dict((c.split(":")[0], int(c.split(":")[1])) for c in d["cls"].split(","))
-            grp.append((tk[2], int(d["n"]), int(d["fails"]), float(d["rec"]), float(d["uni"]), float(d["val"]), cls))
+            grp.append((tk[2], int(d["n"]), int(d["fails"]), float(d["rec"]), float(d["uni"]), float(d["val"]), cls,
+                        int(d.get("seq", 0)), int(d.get("fresh", 0))))
         elif tk[0] == "FAIL":
             i = tk.index("M")
             r, c = int(tk[i + 1]), int(tk[i + 2])
@@ -124,9 +129,9 @@ def run(ctx):
             if end != expect:
                 raise InfraError("set %s shard %d/%d: %r codes enumerated, expected %d" % (name, sh, nsh, end, expect))
             ncodes += end
-            for g, n, nf, rec, uni, val, cls in grp:
-                a = agg.setdefault(g, dict(n=0, fails=0, rec=0.0, uni=0.0, val=0.0, cls={}, sets=set()))
-                a["n"] += n; a["fails"] += nf
+            for g, n, nf, rec, uni, val, cls, nseq, nfresh in grp:
+                a = agg.setdefault(g, dict(n=0, fails=0, rec=0.0, uni=0.0, val=0.0, cls={}, sets=set(), seq=0, fresh=0))
+                a["n"] += n; a["fails"] += nf; a["seq"] += nseq; a["fresh"] += nfresh
                 a["rec"] = max(a["rec"], rec); a["uni"] = max(a["uni"], uni); a["val"] = max(a["val"], val)
                 a["sets"].add(name)
                 for k, v in cls.items():
@@ -150,12 +155,22 @@ def run(ctx):
         for k in a["cls"]:
             ctx.nontrivial((g, k))
     ctx.evals(ndec)
+    nseq = sum(a["seq"] for a in agg.values()); nfresh = sum(a["fresh"] for a in agg.values())
+    for g in REQUIRED:
+        if g != "eigen_utils/r/2x2" and agg[g]["seq"] == 0:
+            raise InfraError("no re-ordered call sequences were run for " + g)
+    for g in FRESH_GROUPS:
+        if agg[g]["fresh"] == 0:
+            raise InfraError("no fresh-process comparison was made for " + g)
+    ctx.note("reordered_calls_compared_bitwise", nseq)
+    ctx.note("fresh_process_comparisons", nfresh)
     ctx.note("matrices_enumerated", ncodes)
     ctx.note("decompositions_checked", ndec)
     ctx.note("failing_checks_by_group_kind", {"%s:%s" % k: v for k, v in sorted(total_fk.items())})
     ctx.note("per_routine", {g: dict(cases=a["n"], failed_checks=a["fails"], worst_reconstruction=float("%.3g" % a["rec"]),
                                      worst_unitarity=float("%.3g" % a["uni"]), worst_values_only_diff=float("%.3g" % a["val"]),
-                                     classes=len(a["cls"]), sets=sorted(a["sets"]))
+                                     classes=len(a["cls"]), sets=sorted(a["sets"]),
+                                     reordered_calls_compared=a["seq"], fresh_process_comparisons=a["fresh"])
                              for g, a in sorted(agg.items())})
     ctx.note("sets", {name: dict(matrices=counts[name], scales=scales) for name, scales in plan})
     ctx.sample({"set": "g2r", "alphabet": [0, 1, -1, 2, -2, 1e-6, -1e-6, 1e6, -1e6], "matrices": counts["g2r"]})
@@ -176,7 +191,7 @@ def run(ctx):
 def replay(ctx, path):
     d = json.load(open(path))["data"]
     exe = _exe()
-    p = subprocess.run([exe], input="one %s %s %d\n" % (d["set"], d["scale"], d["code"]),
+    p = subprocess.run([exe], input="one %s %s %d fresh\n" % (d["set"], d["scale"], d["code"]),
                        stdout=subprocess.PIPE, text=True, timeout=600)
     _, fails, _, _ = _parse(p.stdout)
     hit = [f for f in fails if f["group"] == d["group"] and f["kind"] == d["kind"]]
